@@ -6,7 +6,7 @@ from .common import *  # noqa: F403
 from spacepackets.seqcount import SeqCountProvider, FileSeqCountProvider, PusFileSeqCountProvider
 
 PROPERTY = "C19"
-OUTSIDE = ["a crash inside a call (between seek and write)", "non-ASCII file content", "real file-system semantics (the file "
+OUTSIDE = ["a crash inside a call (between seek and write)", "non-ASCII file content other than single octets that can never start a UTF-8 sequence (the default text encoding is taken to be UTF-8)", "real file-system semantics (the file "
            "is an in-memory text model: readline, seek(0), write overwrite without truncation in 'r+' mode, 'w' truncates)",
            "first lines longer than the listed number of characters in the rejection clause", "widths other than those listed (quick: 1,2,3,8,14,16,24,32; thorough: 1..16,20,24,32,48)"]
 ASSUMPTIONS = ["by induction over calls: from any state `count` in range one call returns count and leaves (count+1) mod "
@@ -202,6 +202,28 @@ def h_file_reject(ctx, w, L):
               exc_name(e2) if e2 is not None else "returned a value")
 
 
+def h_file_bad_octet(ctx, w, L, pos):
+    """a digit string with one octet that can never start a UTF-8 sequence (0x80..0xBF, 0xC0, 0xC1, 0xF8..0xFF), e.g. a bit
+    flip in the stored count: unreadable content must be reported with ValueError, not silently repaired"""
+    fs = Files(ctx)
+    path = fs.path()
+    digs = [ctx.int("d%d" % i, 48, 57) for i in range(L)]
+    bad = ctx.int("bad", 0x80, 0xFF)
+    ctx.assume(sym_or(bad <= 0xBF, bad >= 0xF8, bad == 0xC0, bad == 0xC1))
+    content = digs[:pos] + [bad] + digs[pos:] + [10]
+    if ctx.symbolic:
+        from symx.filestub import raw_octets
+        fs.fs.files[path.name] = raw_octets(content)
+    else:
+        with open(path, "wb") as f:
+            f.write(bytes(content))
+    p = FileSeqCountProvider(w, path)
+    for name, fn in (("current", p.current), ("get_and_increment", p.get_and_increment)):
+        e, r = call(fn)
+        ctx.holds("content with an undecodable octet reported with ValueError (%s)" % name, isinstance(e, ValueError),
+                  exc_name(e) if e is not None else "returned a value")
+
+
 def h_file_range(ctx, w):
     """stored numbers just outside the range are refused, the largest valid one is accepted"""
     fs = Files(ctx)
@@ -235,4 +257,8 @@ def cases(tier):
             cs.append(Case("reject-w%d-L%d" % (w, L), "reject", h_file_reject, dict(w=w, L=L), budget=1500,
                            bounds="every ASCII file content of %d characters, width %d" % (L, w),
                            must_reach=["reach:rejected"] + (["reach:accepted"] if L >= 1 else [])))
+    for L in tier_pick(tier, (1, 3), (0, 1, 2, 3, 4, 5)):
+        for pos in range(0, L + 1):
+            cs.append(Case("badoctet-L%d-p%d" % (L, pos), "reject", h_file_bad_octet, dict(w=14, L=L, pos=pos),
+                           bounds="%d digits with one undecodable octet at position %d" % (L, pos)))
     return cs
